@@ -331,6 +331,38 @@ def real_fit_case(env, chk, model_name, n_iter, count, frac, power, seed):
              sample=case if seed == 0 else None, tags={"kind": "real-fit", "model": model_name})
 
 
+def ctor_grid(chk, env):
+    """Constructor only, exhaustively: every explicit count 0..n for every n_iter up to N (and a few large n_iter):
+    the memory-less phase must have exactly the configured length (no float round trip may lose one iteration)."""
+    torch, AlgorithmSettings, algorithm_factory, LAIE = env
+    N = 400 if chk.tier == "thorough" else 120
+    pairs = [(n, c) for n in range(1, N + 1) for c in range(0, n + 1)]
+    for n in (1000, 5000, 10000):
+        pairs += [(n, c) for c in sorted({chk.rng.randrange(0, n + 1) for _ in range(300)} | {3, 6, 12, 24, 29, 57, 58, n - 1, n})]
+    lines, keep = [], []
+    bad = 0
+    for n, c in pairs:
+        try:
+            algo = build_algo(AlgorithmSettings, algorithm_factory, n, c, None, 0.8)
+            nb = algo.algo_parameters["n_burn_in_iter"]
+        except Exception as e:  # noqa
+            nb = err_class(e, LAIE)
+        if nb != c:
+            bad += 1
+            if bad <= 3:
+                chk.impl_failure({"kind": "ctor", "n_iter": n, "n_burn_in_iter": c, "n_burn_in_iter_frac": None},
+                                 f"explicit memory-less count {c} with n_iter={n} became {nb}")
+        lines.append(f"nburn niter={n} count={c} frac=none")
+        keep.append((n, c, nb))
+    out = chk.model(lines)
+    for (n, c, nb), resp in zip(keep, out):
+        if resp != f"nb={nb}":
+            chk.disagree({"kind": "ctor", "n_iter": n, "n_burn_in_iter": c}, nb, resp, "length of memory-less phase (constructor grid)")
+    chk.evaluations += len(pairs)
+    chk.tag("kind", "ctor-grid", len(pairs))
+    chk.extra_cov["ctor_grid"] = f"every (n_iter <= {N}, explicit count <= n_iter) + sampled counts for n_iter in 1000, 5000, 10000"
+
+
 def run(chk: core.Check):
     env = _imports()
     chk.rule = ("stub: real algorithm object driven over every (n_iter<=N, explicit count 0..n+1) and (n_iter, fraction in a "
@@ -353,6 +385,7 @@ def run(chk: core.Check):
                  tags={"kind": "stub", "ctor": res["ctor"], "n_iter_bucket": (n_iter // 10) * 10,
                        "given": "count" if count is not None else ("frac" if frac is not None else "none")})
     compare_with_model(chk, cases, results)
+    ctor_grid(chk, env)
     # real fits
     fits = [("logistic", 8, None, 0.5, 0.8, 0), ("linear", 7, 2, None, 1.0, 1), ("logistic_scalar", 9, None, 0.29, 0.51, 2)]
     if chk.tier == "thorough":
@@ -377,6 +410,20 @@ def replay(chk: core.Check, payload):
     if case.get("kind") == "fit":
         real_fit_case(env, chk, case["model"], case["n_iter"], case["n_burn_in_iter"], case["n_burn_in_iter_frac"],
                       case["burn_in_step_power"], case["seed"])
+        return
+    if case.get("kind") == "ctor":
+        torch, AlgorithmSettings, algorithm_factory, LAIE = env
+        n, cnt = case["n_iter"], case["n_burn_in_iter"]
+        try:
+            nb = build_algo(AlgorithmSettings, algorithm_factory, n, cnt, None, 0.8).algo_parameters["n_burn_in_iter"]
+        except Exception as e:  # noqa
+            nb = err_class(e, LAIE)
+        if nb != cnt:
+            chk.impl_failure(case, f"explicit memory-less count {cnt} with n_iter={n} became {nb}")
+        out = chk.model([f"nburn niter={n} count={cnt} frac=none"])
+        if out[0] != f"nb={nb}":
+            chk.disagree(case, nb, out[0], "length of memory-less phase")
+        chk.case(("ctor", n, cnt), sample=case)
         return
     c = (case["n_iter"], case["n_burn_in_iter"], case["n_burn_in_iter_frac"], case["burn_in_step_power"], case["stats"])
     res = run_stub(env, *c)
